@@ -296,7 +296,9 @@ def check(prop, tier, seed, replay):
             accepted += ncase - len(bad)
             log(f"[trace] {name}: {n} lines ({ncase} cases), {n - len(bad)} accepted by TLC, {len(bad)} rejected")
         t_val = time.time() - t_val
-        if not replay:
+        # vacuity guards speak about a run in which everything conformed; with rejected lines in hand the verdict below
+        # (a violation with its replay) is what the run has to report, not a tool error
+        if not replay and accepted == total:
             if not any(k[2] == "101" for k in matrix) or not any(k[2] == "as_unknown_path" and k[0] == "ws" for k in matrix):
                 raise ToolError("vacuous run: the gate never answered 101 or never fell back on /ws")
             if (T["echo_batches"] or any(c["cfg"]["backend"] == "echo" for c in cases)) and \
